@@ -52,7 +52,7 @@ func srcName(v ssa.Value) string {
 
 // C14: metadata precedence and opt-out (combinator skeleton).
 func C14(p *core.Program, r *core.Report) {
-	r.Explanation = "P1: in markup.NewParser the accessor list is built in the order OpenGraph (only under err==nil && parser!=nil), schema.org, IE reading view (reachability/guard-cut on the appends). P2: opengraph.NewParser's decision list rejects (nil parser, error) when title, type, url or the image list is empty and accepts otherwise. P3: each of the ten getters of markup.Parser is a forward range over the accessor list returning the first non-empty answer of the same-named Accessor method (decision-list conformance per getter). P4: MarkupInfo returns the zero record whenever OptOut() holds; a filled record is reachable only through the OptOut()==false edge. P5: every field of the record is filled from the same-named getter/field."
+	r.Explanation = "P1: in markup.NewParser the accessor list is built in the order OpenGraph (only under err==nil && parser!=nil), schema.org, IE reading view (reachability/guard-cut on the appends). P2: opengraph.NewParser's decision list rejects (nil parser, error) when title, type, url or the image list is empty and accepts otherwise. P3: each of the ten getters of markup.Parser is a forward range over the accessor list returning the first non-empty answer of the same-named Accessor method (decision-list conformance per getter). P4: MarkupInfo returns the zero record whenever OptOut() holds; a filled record is reachable only through the OptOut()==false edge. P5: every field of the record is filled from the same-named getter/field. P6: the opt-out tag is searched among all meta elements of the whole root (name IE_RM_OFF, content true, case-insensitively) and all three parsers get that same root."
 	r.NotCovered = "the three parsers' internals (nested microdata, type dependent OpenGraph properties, IE meta tags), i.e. what each source reports; only the combination of the sources is decided."
 
 	// ---- P1
@@ -248,6 +248,9 @@ func C14(p *core.Program, r *core.Report) {
 	}
 	r.Floor("P3-rule", 20)
 
+	// ---- P6
+	checkOptOutDetection(p, r)
+
 	// ---- P4 / P5
 	mi := mustFunc(p, r, "P4", "(*"+markupPkg+".Parser).MarkupInfo")
 	if mi != nil {
@@ -328,6 +331,73 @@ func neverAfter(a, b ssa.Instruction) bool {
 		return true
 	}
 	return !reachableFrom(b.Block(), a.Block())
+}
+
+// checkOptOutDetection (P6): the IE opt-out tag is searched among ALL meta elements of the root
+// given to the markup parser, with the documented name/content test.
+func checkOptOutDetection(p *core.Program, r *core.Report) {
+	c := core.NewCanon(p)
+	if np := mustFunc(p, r, "P6", markupPkg+"/iereader.NewParser"); np != nil {
+		ok := false
+		for _, a := range allocsOfAny(np) {
+			fs := fieldStores(a)
+			if len(fs["allMeta"]) == 1 {
+				ok = c.Of(fs["allMeta"][0]) == `dom.GetElementsByTagName($0,"meta")`
+			}
+		}
+		r.Add("P6", "the IE reader looks at every meta element below its root", p.Pos(np.Pos()), ok, `allMeta = dom.GetElementsByTagName(root,"meta")`)
+	}
+	if mp := mustFunc(p, r, "P6", markupPkg+".NewParser"); mp != nil {
+		for _, call := range core.Calls(mp, func(ci ssa.CallInstruction) bool {
+			return core.IsCallTo(ci, markupPkg+"/iereader.NewParser", markupPkg+"/schemaorg.NewParser", markupPkg+"/opengraph.NewParser")
+		}) {
+			r.Add("P6", core.ShortKey(core.Callee(call))+" parses the whole root given to the markup parser", p.Pos(call.Pos()), c.Of(call.Common().Args[0]) == "$0", "root = "+c.Of(call.Common().Args[0]))
+		}
+	}
+	if fo := mustFunc(p, r, "P6", "(*"+markupPkg+"/iereader.Parser).findOptOut"); fo != nil {
+		hs := loopHeaders(fo)
+		if len(hs) != 1 {
+			r.Undecided("P6", "findOptOut loop", "expected one loop")
+		} else {
+			paths, atoms, _ := core.EnumerateDecisions(p, fo, core.DecisionOpts{IterateAt: hs[0],
+				Outcome: func(in ssa.Instruction, c *core.Canon) (string, bool) {
+					if _, ok := in.(*ssa.Return); ok {
+						return "stop", true
+					}
+					return "", false
+				},
+				Event: func(in ssa.Instruction, c *core.Canon) (string, bool) {
+					if st, ok := in.(*ssa.Store); ok && c.Of(st.Addr) == "&$0.optOut" {
+						return "optOut=" + c.Of(st.Val), true
+					}
+					return "", false
+				}})
+			el := `elem($0.allMeta)`
+			spec := core.DecisionSpec{
+				Atoms: map[string]string{"is.optout.tag": q(`strings.ToUpper(dom.GetAttribute(` + el + `,"name")) == "IE_RM_OFF"`)},
+				Rules: []core.SpecRule{
+					{Name: "IE_RM_OFF tag: its content decides, search ends", Guard: core.A("is.optout.tag"), Outcome: `optOut=(strings.ToLower(dom.GetAttribute(` + el + `,"content")) == "true") => stop`},
+					{Name: "any other meta tag: keep looking", Guard: core.True(), Outcome: "next()"},
+				},
+			}
+			core.CheckDecisionList(r, "P6", "findOptOut(iteration)", paths, atoms, spec)
+			at := ""
+			if ifi, ok := hs[0].Instrs[len(hs[0].Instrs)-1].(*ssa.If); ok {
+				at, _ = core.NewCanon(p).CondAtom(ifi.Cond)
+			}
+			r.Add("P6", "findOptOut scans the complete meta list", p.Pos(fo.Pos()), at == `(μ((@0 + 1)|-1) + 1) < len($0.allMeta)`, at)
+		}
+	}
+	if oo := mustFunc(p, r, "P6", "(*"+markupPkg+"/iereader.Parser).OptOut"); oo != nil {
+		okRet := true
+		for _, ret := range core.Returns(oo) {
+			if c.Of(ret.Results[0]) != "$0.optOut" {
+				okRet = false
+			}
+		}
+		n := len(core.Calls(oo, func(ci ssa.CallInstruction) bool { return core.IsCallTo(ci, "(*"+markupPkg+"/iereader.Parser).findOptOut") }))
+		r.Add("P6", "OptOut reports what findOptOut determined", p.Pos(oo.Pos()), okRet && n == 1, "")
+	}
 }
 
 func unNot(v ssa.Value) ssa.Value {
